@@ -70,13 +70,17 @@ def prose_of_shape(rng, shape):
         return G.clean_prose(rng, terminal=",")
     if shape == "noterm":
         return G.clean_prose(rng, terminal="")
+    if shape == "announced":
+        # prose that already carries a default sentence (as parse leaves it with emit_default_doc=True)
+        return G.clean_prose(rng, terminal=rng.choice([".", ","])) + rng.choice([" Defaults to ", " defaults to "]) + \
+            rng.choice(["7", "0.5", "mnist", "True", "None"])
     return G.prose(rng, spice=0.35)
 
 
 def gen_param(rng, tags):
     shape = rng.choice(TYPE_SHAPES)
     typ = typ_of_shape(rng, shape)
-    pshape = rng.choice(["clean", "clean", "clean", "comma", "noterm", "spicy", "absent"])
+    pshape = rng.choice(["clean", "clean", "clean", "clean", "comma", "noterm", "spicy", "absent", "announced"])
     doc = prose_of_shape(rng, pshape)
     dk, dv = consistent_default(rng, typ)
     p = {}
